@@ -179,6 +179,9 @@ func (a *Authenticator) Enforce(apiKey, obj, act string) (bool, error) {
 	return allow, nil
 }
 
+// ErrTokenMalformed is returned for a token that is too short to carry a nonce.
+var ErrTokenMalformed = errors.New("malformed token")
+
 type encrypter struct {
 	gcm cipher.AEAD
 }
@@ -215,6 +218,9 @@ func (e encrypter) encrypt(data []byte) ([]byte, error) {
 
 func (e encrypter) decrypt(data []byte) ([]byte, error) {
 	nonceSize := e.gcm.NonceSize()
+	if len(data) < nonceSize {
+		return nil, ErrTokenMalformed
+	}
 	nonce, ciphertext := data[:nonceSize], data[nonceSize:]
 	plaintext, err := e.gcm.Open(nil, nonce, ciphertext, nil)
 	if err != nil {
